@@ -42,10 +42,10 @@ func (r Ref) Text() string {
 
 type Stmt struct {
 	K     Kind
-	A, B  *Stmt // Seq, Choice; Loop uses A
-	Ref   Ref   // Acq, Rel, Rd, Wr
+	A, B  *Stmt  // Seq, Choice; Loop uses A
+	Ref   Ref    // Acq, Rel, Rd, Wr
 	Label string // mutex label (Acq/Rel), field label (Rd/Wr), channel text (Block)
-	Ex    bool  // Acq: exclusive
+	Ex    bool   // Acq: exclusive
 	Pos   token.Position
 }
 
